@@ -198,6 +198,7 @@ func c17Run[T constraints.Integer](t *rapid.T, col *ev.Collector, u c17Universe[
 }
 
 func TestC17(t *testing.T) {
+	runWitnesses(t, "C17")
 	col := ev.New("C17", "rapid: two lists of 0-8 non-empty intervals with end points drawn from a small universe "+
 		"(40-point grid incl. 0,1 and 2^64-2,2^64-1 for uint64; 24 points incl. -128 and 127 for int8) so that overlap, "+
 		"adjacency, containment and duplicates are the norm; oracle = boolean membership per elementary segment; "+
